@@ -7,6 +7,7 @@ import (
 
 	"github.com/goatcms/goatcore/app"
 	"github.com/goatcms/goatcore/varutil/goaterr"
+	"github.com/goatcms/goatcore/varutil/verifhook"
 )
 
 // ContextScope is default context scope
@@ -53,6 +54,7 @@ func (s *ContextScope) Kill() {
 // Stop stop the scope context without error
 func (s *ContextScope) Stop() {
 	if !s.IsDone() {
+		verifhook.Yield("contextscope.stop.gap")
 		close(s.done)
 	}
 }
